@@ -142,6 +142,8 @@ impl DhtHandler {
                 }
             }
         }
+        #[cfg(btdht_verif)]
+        crate::verif_log::record("EV_END".to_string());
     }
 
     fn is_bootstrapped(&self) -> bool {
